@@ -75,6 +75,12 @@ pub fn program(c: &Case) -> Program {
         body.push(Stmt::Label { name: "qspin".into(), block: None });
         body.push(ins("jmp", Form::Plain, Some(Expr::id("qspin"))));
     }
+    // assertions that read memory (always true: they are evaluated while the machine executes, also during a step or a pause)
+    for _ in 0..g.e.below(3) {
+        let at = g.e.below(body.len() + 1);
+        let addr = *g.e.pick(&[0x10i64, 0x0300, 0x2000]);
+        body.insert(at, Stmt::Assert { e: Expr::bin(Expr::Call("ram".into(), vec![Expr::hex(addr)]), BinOp::GtEq, Expr::num(0)), msg: None });
+    }
     body.push(ins("brk", Form::None, None));
     let subs = std::mem::take(&mut g.subs);
     for (sname, sbody) in subs {
@@ -396,7 +402,20 @@ pub fn prop(c: &Case, log: &mut CaseLog) -> Verdict {
     };
     let mut tr: Vec<String> = vec![];
     let mut st = Stats::default();
-    let v = drive(c, &rf, &mut s, &mut tr, &mut st, log);
+    let mut v = drive(c, &rf, &mut s, &mut tr, &mut st, log);
+    // A request that was not answered in time decides nothing by itself. When every thread of the server sleeps without
+    // using any CPU time, though, no answer is coming: the adapter waits for something that will not happen.
+    if matches!(v, Verdict::Pass) && log.labels.iter().any(|l| l.starts_with("inconclusive:")) {
+        let pid = s._lsp.pid();
+        let a = crate::props::c20::thread_sample(pid);
+        std::thread::sleep(Duration::from_millis(300));
+        let b = crate::props::c20::thread_sample(pid);
+        let all_blocked = !a.is_empty() && a.len() == b.len() && a.iter().zip(b.iter()).all(|(x, y)| x.1 == 'S' && y.1 == 'S' && x.2 == y.2);
+        if all_blocked {
+            let what = log.labels.iter().find(|l| l.starts_with("inconclusive:")).cloned().unwrap_or_default();
+            v = Verdict::fail(format!("request-never-answered|{}", what.trim_start_matches("inconclusive:")), format!("no answer within {} s, and all {} threads of the server sleep without consuming CPU time: {:?}", T.as_secs(), b.len(), b));
+        }
+    }
     log.label_if(st.pause_midrun > 0, "pause-mid-run");
     log.label_if(st.bp_stops > 0, "breakpoint-stop");
     log.label_if(st.steps > 0, "stepped");
@@ -653,6 +672,8 @@ fn step_target(rf: &Reference, i: usize, kind: StepKind) -> Option<usize> {
         }
         StepKind::StepOut => {
             if e.depth == 0 {
+                // not in a subroutine: there is nothing to step out of, and the property does not say where that ends
+                // (mos stays where it is when the stack is empty, and otherwise runs on to the next unbalanced return)
                 None
             } else {
                 Some((i + 1..=last).find(|j| t[*j].depth < e.depth).unwrap_or(last))
@@ -801,13 +822,15 @@ pub fn strategy(features: Vec<String>) -> impl Strategy<Value = Case> {
 
 pub fn run_check(ctx: &mut Ctx) {
     std::env::set_var("MV_MAX_SHRINK", std::env::var("MV_MAX_SHRINK").unwrap_or_else(|_| "60".into()));
-    ctx.rule = "generated test programs (counted loops up to 255 x 255 iterations, forward branches, subroutines two levels deep, pha/pla, `.loop` blocks and macros invoked more than once = one source line at several addresses) debugged over DAP on the test runner of a live `mos lsp`; request sequences of 2-17 operations: setBreakpoints on any code lines (halted and while running), configurationDone/continue with an optional pause after 0-60 ms, next/stepIn/stepOut, repeated inspection after a delay. oracle: a reference trace of the uninterrupted run (emulator_6502 driven directly with the test runner's cycle accounting, image and line table from the independent layout model); the cycle counter reported at every stop locates the machine in the trace; then (1) registers, flags, evaluate(cpu.a/x/y, ram()) equal the trace entry, (2) the frame's lines contain the line of the true program counter, (3) nothing changes between two inspections without a request, (4) between resume and stop no instruction with a breakpoint (set the whole time) was executed, and a run that ends had none ahead, (5) a stop without pause is at a breakpoint, (6) stepIn lands on the next trace entry, next on the entry after the call returns to the same frame, stepOut on the first entry of the caller. non-trivial = at least two stops and one of: pause landing mid-run, breakpoint stop, next over a call, stepOut".into();
+    ctx.rule = "generated test programs (counted loops up to 255 x 255 iterations, forward branches, subroutines two levels deep, pha/pla, `.loop` blocks and macros invoked more than once = one source line at several addresses) debugged over DAP on the test runner of a live `mos lsp`; request sequences of 2-17 operations: setBreakpoints on any code lines (halted and while running), configurationDone/continue with an optional pause after 0-60 ms, next/stepIn/stepOut, repeated inspection after a delay. oracle: a reference trace of the uninterrupted run (emulator_6502 driven directly with the test runner's cycle accounting, image and line table from the independent layout model); the cycle counter reported at every stop locates the machine in the trace; then (1) registers, flags, evaluate(cpu.a/x/y, ram()) equal the trace entry, (2) the frame's lines contain the line of the true program counter, (3) nothing changes between two inspections without a request, (4) between resume and stop no instruction with a breakpoint (set the whole time) was executed, and a run that ends had none ahead, (5) a stop without pause is at a breakpoint, (6) stepIn lands on the next trace entry, next on the entry after the call returns to the same frame, stepOut on the first entry of the caller (not judged when there is no caller). Programs hold assertions that read memory with ram(). A second campaign sets breakpoints in two source files, one request per file in either order, on a straight-line program: the stops are the breakpointed lines in execution order. non-trivial = at least two stops and one of: pause landing mid-run, breakpoint stop, next over a call, stepOut".into();
     if !have_mos() {
         ctx.health(false, "mos binary not built (MOS_BIN)");
         return;
     }
     let n = ctx.tier.pick(400, 12_000);
     ctx.campaign_parallel("sessions", n, 16, || strategy(vec![]), prop, to_json);
+    let n2 = ctx.tier.pick(64, 1200);
+    ctx.campaign_parallel("two-sources", n2, 16, || proptest::collection::vec(any::<u32>(), 10..14), prop_two_sources, |en| json!({"two_sources_entropy": en}));
     let bad = ctx.label_count("inconclusive:session-did-not-start");
     ctx.health(bad * 50 <= n as u64, format!("{} of {} sessions did not start", bad, n));
     for l in ["pause-mid-run", "breakpoint-stop", "next-over-call", "step-out-of-call", "ran-to-end"] {
@@ -816,7 +839,111 @@ pub fn run_check(ctx: &mut Ctx) {
     }
 }
 
+/// Breakpoints in two source files, set by one request per file (in either order): a straight-line program of which the
+/// order of execution is known, run with `continue` after every stop. The stops are the lines with a breakpoint, in
+/// the order in which they are executed.
+pub fn prop_two_sources(entropy: &Vec<u32>, log: &mut CaseLog) -> Verdict {
+    let mut e = Ent::new(entropy);
+    let main = ".test \"t0\" {\n    lda #1\n    jsr incq\n    ldx #7\n    nop\n    brk\n}\n.import * from \"lib.asm\"\n";
+    let lib = "incq:\n    clc\n    adc #1\n    rts\n";
+    // (file, line) in execution order
+    let order: Vec<(&str, usize)> = vec![("main.asm", 2), ("main.asm", 3), ("lib.asm", 2), ("lib.asm", 3), ("lib.asm", 4), ("main.asm", 4), ("main.asm", 5), ("main.asm", 6)];
+    let chosen: Vec<(&str, usize)> = order.iter().cloned().filter(|_| e.chance(2, 5)).collect();
+    let lib_first = e.chance(1, 2);
+    let sc = Scratch::new("c19s");
+    sc.write("mos.toml", b"[build]\nentry = \"main.asm\"\n");
+    sc.write("main.asm", main.as_bytes());
+    sc.write("lib.asm", lib.as_bytes());
+    let mut lsp = match LspClient::start(&sc.dir) {
+        Ok(l) => l,
+        Err(_) => {
+            log.label("inconclusive:session-did-not-start");
+            return Verdict::Pass;
+        }
+    };
+    let uri = crate::sut::lsp::file_uri(&sc.dir, "main.asm");
+    lsp.did_open(&uri, main);
+    let _ = lsp.request("textDocument/documentSymbol", json!({"textDocument": {"uri": uri}}), Duration::from_secs(20));
+    let mut dap = match DapClient::connect(lsp.port, Duration::from_secs(10)) {
+        Some(d) => d,
+        None => {
+            log.label("inconclusive:session-did-not-start");
+            return Verdict::Pass;
+        }
+    };
+    log.label("two-sources");
+    log.nontrivial = chosen.iter().any(|c| c.0 == "lib.asm") && chosen.iter().any(|c| c.0 == "main.asm");
+    let run = (|| -> Result<Verdict, DapErr> {
+        dap.request("initialize", json!({"adapterID": "mos", "linesStartAt1": true, "columnsStartAt1": true}), T)?;
+        dap.request("launch", json!({"workspace": sc.dir.to_string_lossy(), "testRunner": {"testCaseName": "t0"}}), T)?;
+        let files = if lib_first { ["lib.asm", "main.asm"] } else { ["main.asm", "lib.asm"] };
+        for f in files {
+            let bps: Vec<Value> = chosen.iter().filter(|c| c.0 == f).map(|c| json!({"line": c.1})).collect();
+            dap.request("setBreakpoints", json!({"source": {"path": sc.dir.join(f).to_string_lossy()}, "breakpoints": bps}), T)?;
+        }
+        dap.request("configurationDone", Value::Null, T)?;
+        let mut stops: Vec<(String, usize)> = vec![];
+        let mut seen = 0;
+        loop {
+            // next stopped / terminated event
+            let deadline = std::time::Instant::now() + T;
+            let mut ev = None;
+            while ev.is_none() {
+                while seen < dap.events.len() {
+                    let x = dap.events[seen].clone();
+                    seen += 1;
+                    if x["event"] == "stopped" || x["event"] == "terminated" {
+                        ev = Some(x);
+                        break;
+                    }
+                }
+                if ev.is_none() {
+                    if std::time::Instant::now() > deadline {
+                        return Err(DapErr::Timeout);
+                    }
+                    dap.pump(Duration::from_millis(2));
+                }
+            }
+            let ev = ev.unwrap();
+            if ev["event"] == "terminated" {
+                break;
+            }
+            let st = dap.request("stackTrace", json!({"threadId": 1}), T)?;
+            let fr = &st["body"]["stackFrames"][0];
+            let file = fr["source"]["path"].as_str().unwrap_or("").rsplit('/').next().unwrap_or("").to_string();
+            stops.push((file, fr["line"].as_u64().unwrap_or(0) as usize));
+            if stops.len() > 20 {
+                break;
+            }
+            dap.request("continue", json!({"threadId": 1}), T)?;
+        }
+        let want: Vec<(String, usize)> = chosen.iter().map(|c| (c.0.to_string(), c.1)).collect();
+        if stops != want {
+            return Ok(Verdict::fail(
+                "stops-differ-from-breakpoints|two-sources",
+                format!("--- main.asm ---\n{}--- lib.asm ---\n{}breakpoints {:?} (set for {} first)\nstops {:?}", main, lib, want, if lib_first { "lib.asm" } else { "main.asm" }, stops),
+            ));
+        }
+        Ok(Verdict::Pass)
+    })();
+    match run {
+        Ok(v) => v,
+        Err(DapErr::Timeout) => {
+            log.label("inconclusive");
+            Verdict::Pass
+        }
+        Err(e) => Verdict::fail("session-error|two-sources", format!("{:?}\nstderr: {}", e, lsp.stderr_tail())),
+    }
+}
+
 pub fn replay(ctx: &mut Ctx, case: &Value) {
+    if let Some(en) = case.get("two_sources_entropy") {
+        match serde_json::from_value::<Vec<u32>>(en.clone()) {
+            Ok(en) => ctx.replay_one(&en, prop_two_sources, case.clone()),
+            Err(e) => ctx.health(false, format!("replay case does not deserialize: {}", e)),
+        }
+        return;
+    }
     let c: Case = match serde_json::from_value(json!({"entropy": case["entropy"], "ops": case["ops"], "features": case["features"]})) {
         Ok(c) => c,
         Err(e) => {
